@@ -22,7 +22,7 @@ for p in props:
 na=[{"property_id":p['id'],"reason":CLAIMS.get(p['id'],{}).get('reason',"check not built yet (engine under construction)")} for p in props if not CLAIMS.get(p['id'],{}).get('claimed')]
 m={"version":1,
  "setup_cmd":"cd /verif/engine && GOFLAGS=-mod=mod GOPROXY=off GOSUMDB=off GOTOOLCHAIN=local PATH=/opt/veriftools/go1.26.8/bin:$PATH go build -o /verif/bin/gosym . && /verif/bin/gosym list >/dev/null",
- "hooks":{"guard":"verif","enable":"none needed: harnesses are injected through build overlays (go/packages Overlay for the encoder, go test -overlay for native replay, both with -tags=verif); /repo carries no verification code","baseline_off_cmd":"cd /repo && go test -mod=mod -vet=off -count=1 -timeout 25m ./...","source_commits":[],"add_only":True},
+ "hooks":{"guard":"verif","enable":"harnesses are injected through build overlays (go/packages Overlay for the encoder, go test -overlay for native replay, both with -tags=verif); /repo carries one hook: pkg/server/verif_hook_on.go (tag verif) / verif_hook_off.go (no-op) and a verifPoint(\"opensent.select\") call, used by the native replay of C07.collision to wait until both scripted events are pending","baseline_off_cmd":"cd /repo && go test -mod=mod -vet=off -count=1 -timeout 25m ./...","source_commits":["a66feb2"],"add_only":True},
  "engines":[{"name":"gosym","path":"/verif/engine","serves_properties":[c['property_id'] for c in checks],"kind_free_text":"forking symbolic executor over go/ssa of /repo's real code (regenerated from the working tree on every run), SMT-LIB2 queries to z3 5.1, native replay of solver models through go test -overlay"}],
  "checks":checks,
  "notes":"See DESIGN.md. Exit codes of gosym check: 0 = all obligations explored held (or match a known finding), 1 = replay-confirmed VIOLATION, 3 = infrastructure error (no verdict).",
